@@ -410,6 +410,10 @@ def deep_state(v, memo=None, depth=0):
     return repr(type(v))
 
 
+class HarnessError(Exception):
+    """the native harness itself cannot run (e.g. the loop a step contract names is not in the source any more): never a verdict"""
+
+
 def native_step(ci: ContractInfo, vals: dict):
     """Native counterpart of Interp.run_step: the body of the named loop, taken from the real source of the target function on every
     call, is compiled into a function of the names in `vals` and run once; `vals` is updated with the locals afterwards."""
@@ -425,11 +429,11 @@ def native_step(ci: ContractInfo, vals: dict):
     tree = ast.parse(textwrap.dedent(inspect.getsource(fn)))
     loop = None
     for n in ast.walk(tree):
-        if isinstance(n, (ast.For, ast.While)) and ast.unparse(n).split('\n')[0].rstrip(':').strip() == ci.pycls.step:
+        if isinstance(n, (ast.For, ast.While)) and ast.unparse(n).split('\n')[0].rstrip(':').strip().startswith(ci.pycls.step):
             loop = n
             break
     if loop is None:
-        raise RuntimeError(f'loop {ci.pycls.step!r} not found in {ci.target}')
+        raise HarnessError(f'loop {ci.pycls.step!r} not found in {ci.target}')
 
     class Ret(ast.NodeTransformer):
         def visit_FunctionDef(self, node):
@@ -565,6 +569,9 @@ def _replay(ci: ContractInfo, ob_kind: str, ob_label: str, model: dict):
                 result = call_real(ci, vals)
             elif ci.kind == 'const':
                 result = real_const(ci.const)
+        except HarnessError as e:
+            info.update(confirmed=None, reason='replay harness error: ' + str(e))
+            return info
         except Exception as e:   # the real code raised
             exc = e
         info['observed'] = {'raised': type(exc).__name__ + ': ' + str(exc)[:200]} if exc is not None else {'result': _show(result)}
@@ -647,6 +654,8 @@ def native_check(ci: ContractInfo, g: ConcreteFactory):
             result = call_real(ci, vals)
         elif ci.kind == 'const':
             result = real_const(ci.const)
+    except HarnessError:
+        raise
     except Exception as e:
         exc = e
     failed = []
@@ -750,6 +759,8 @@ def bounded_standin(ci: ContractInfo, n: int, rng):
         g = ConcreteFactory({}, rng=rng, bound=6)
         try:
             failed = native_check(ci, g)
+        except HarnessError as e:
+            return 0, {'harness_error': str(e)}
         except Exception:
             continue
         if failed is None:
